@@ -589,7 +589,23 @@ func ruleW2(c *Ctx, id string) {
 						continue
 					}
 					// normal form of the accumulated quantity: (+ c <accumulator> len(name))
-					form := sym(&symCtx{}, cmp.X, sc.S, 0)
+					acc := cmp.X
+					if ld, isL := stripConv(acc).(*ssa.UnOp); isL && ld.Op == token.MUL {
+						// the running total lives in a cell (captured by the function literal that holds the body):
+						// the value compared is the one the accumulating statement stored just before
+						var last *ssa.Store
+						n := 0
+						for _, st := range cellStores(ld.X) {
+							if st.Parent() == sc.Fn && st.Addr == ld.X {
+								n++
+								last = st
+							}
+						}
+						if n == 1 && (last.Block() == ld.Block() || last.Block().Dominates(ld.Block())) {
+							acc = last.Val
+						}
+					}
+					form := sym(&symCtx{}, acc, sc.S, 0)
 					var k int64
 					if n, err := fmt.Sscanf(form, "(+ %d ", &k); err == nil && n == 1 && strings.Contains(form, "len(") {
 						dirc = k
